@@ -132,7 +132,7 @@ KindRespected == last.valid =>
 TableSorted == /\ Len(table) = Len(binds) /\ {table[k] : k \in 1..Len(table)} = 1..Len(binds)
                /\ \A k \in 1..(Len(table) - 1) : binds[table[k]].plen >= binds[table[k + 1]].plen
 \* never a fatal error for a single datagram: the outcome is a socket or a silent drop
-NeverFatal == last.out.kind \in {"none", "ip", "relay", "custom", "drop"}
+SendNeverFails == last.out.kind \in {"none", "ip", "relay", "custom", "drop"}
 
 \* generator: one REPLAY line per (configuration, route): the sockets the statement allows
 \* (1-based bind indices), the model's outcome, and the two per-bind decision functions
